@@ -15,7 +15,7 @@ for P in $PROPS; do
     rsync -a --exclude .git /repo/ "$S/"
     if ! (cd "$S" && patch -p1 -s < "$M"); then echo "SELFTEST $P $(basename "$M"): patch does not apply"; fail=$((fail+1)); rm -rf "$S"; continue; fi
     if ! (cd "$S" && go build ./... 2>/dev/null); then echo "SELFTEST $P $(basename "$M"): mutant does not compile"; fail=$((fail+1)); rm -rf "$S"; continue; fi
-    OUT=$("$HERE/bin/i2pcheck" -repo "$S" -verif "$HERE" -prop "$P" -evidence "$S/.evidence.json" 2>&1); RC=$?
+    OUT=$("${I2PCHECK_BIN:-$HERE/bin/i2pcheck}" -repo "$S" -verif "$HERE" -prop "$P" -evidence "$S/.evidence.json" 2>&1); RC=$?
     EXP=$(sed -n '1s/^# expect: //p' "$M")
     if [ $RC -eq 1 ] && echo "$OUT" | grep -q "^VIOLATION property=$P" && { [ -z "$EXP" ] || echo "$OUT" | grep -qF "$EXP"; }; then
       echo "SELFTEST $P $(basename "$M"): caught ($(echo "$OUT" | grep -c '^VIOLATION') violation lines)"
